@@ -57,7 +57,7 @@ func (c *Client) ReadCoils(id byte, coil, count uint16) ([]bool, error) {
 	}
 
 	// FIXME, what is max modbus packet size?
-	buf := make([]byte, 200)
+	buf := make([]byte, maxADUSize)
 	cnt, err := c.transport.Read(buf)
 	if err != nil {
 		return ret, err
@@ -78,7 +78,7 @@ func (c *Client) ReadCoils(id byte, coil, count uint16) ([]bool, error) {
 		fmt.Printf("Modbus client Readcoils ID:0x%x resp:%v\n", id, resp)
 	}
 
-	return resp.RespReadBits()
+	return resp.respReadBitsCount(int(count))
 }
 
 // WriteSingleCoil is used to read modbus coils
@@ -102,7 +102,7 @@ func (c *Client) WriteSingleCoil(id byte, coil uint16, v bool) error {
 	}
 
 	// FIXME, what is max modbus packet size?
-	buf := make([]byte, 200)
+	buf := make([]byte, maxADUSize)
 	cnt, err := c.transport.Read(buf)
 	if err != nil {
 		return err
@@ -156,7 +156,7 @@ func (c *Client) ReadDiscreteInputs(id byte, input, count uint16) ([]bool, error
 	}
 
 	// FIXME, what is max modbus packet size?
-	buf := make([]byte, 200)
+	buf := make([]byte, maxADUSize)
 	cnt, err := c.transport.Read(buf)
 	if err != nil {
 		return ret, err
@@ -181,7 +181,7 @@ func (c *Client) ReadDiscreteInputs(id byte, input, count uint16) ([]bool, error
 		return []bool{}, errors.New("resp contains wrong function code")
 	}
 
-	return resp.RespReadBits()
+	return resp.respReadBitsCount(int(count))
 }
 
 // ReadHoldingRegs is used to read modbus coils
@@ -206,7 +206,7 @@ func (c *Client) ReadHoldingRegs(id byte, reg, count uint16) ([]uint16, error) {
 	}
 
 	// FIXME, what is max modbus packet size?
-	buf := make([]byte, 200)
+	buf := make([]byte, maxADUSize)
 	cnt, err := c.transport.Read(buf)
 	if err != nil {
 		return ret, err
@@ -256,7 +256,7 @@ func (c *Client) ReadInputRegs(id byte, reg, count uint16) ([]uint16, error) {
 	}
 
 	// FIXME, what is max modbus packet size?
-	buf := make([]byte, 200)
+	buf := make([]byte, maxADUSize)
 	cnt, err := c.transport.Read(buf)
 	if err != nil {
 		return ret, err
@@ -305,7 +305,7 @@ func (c *Client) WriteSingleReg(id byte, reg, value uint16) error {
 	}
 
 	// FIXME, what is max modbus packet size?
-	buf := make([]byte, 200)
+	buf := make([]byte, maxADUSize)
 	cnt, err := c.transport.Read(buf)
 	if err != nil {
 		return err
